@@ -32,6 +32,7 @@ structure DrvState where
   strs : Array (List TraceString) := #[]
   flds : Array (List HlogField) := #[]
   env : Env := defaultEnv
+  chips : List ChipData := []
 
 def pAHdr : P AHdr := do let ver ← pNum; let sub ← pNum; let comp ← pNum; pure { ver, sub, comp }
 def pAPH : P APH := do
@@ -83,6 +84,16 @@ def pASection : P ASection := do
 def pAPel : P APel := do
   let ph ← pAPH; let uh ← pAUH; let sections ← pList pASection
   pure { ph, uh, sections }
+
+def pOpt {α} (p : P α) : P (Option α) := do
+  let has ← pBool
+  if has then (do let x ← p; pure (some x)) else pure none
+def pTT : P (Text × Text) := do let a ← pText; let b ← pText; pure (a, b)
+def pT3 : P (Text × Text × List (Text × Text)) := do let a ← pText; let b ← pText; let l ← pList pTT; pure (a, b, l)
+def pChip : P ChipData := do
+  let id ← pText; let type ← pOpt pText; let desc ← pOpt pText
+  let attnTypes ← pOpt (pList pTT); let signatures ← pOpt (pList pT3); let registers ← pOpt (pList pT3)
+  pure { id, type, desc, attnTypes, signatures, registers }
 
 def pUdPlugin : P UdPlugin := do
   let k ← pWord
@@ -169,6 +180,22 @@ def handleSt (st : DrvState) (op : String) : P (DrvState × String) :=
       let env : Env := { T := liveTables compIds, ud := lookupFn uds .absent,
                          src := { callout := lookupFn cos .absent, src := lookupFn srcs .absent }, allowPlugins := allow }
       pure ({ st with env := env }, "ok")
+  | "defchips" => do
+      let cs ← pList pChip; pEnd
+      pure ({ st with chips := cs }, "ok")
+  | "sig" => do
+      let a ← pText; let b ← pText; let c ← pText; pEnd
+      pure (st, "ok " ++ outJ (getSignature st.chips a b c) ++ " " ++
+        outJ (specSignatureNoData (parseHexText a) (parseHexText b) (parseHexText c)))
+  | "oe500ud" => do
+      let sub ← pNum; let data ← pBytes; pEnd
+      match oe500Ud st.chips sub data with
+      | .json j => pure (st, "ok " ++ outJ j)
+      | .raises => pure (st, "ok-raises")
+      | .unsupported => pure (st, "unsupported float")
+  | "oe500src" => do
+      let rc ← pText; let w6 ← pText; let w7 ← pText; let w8 ← pText; pEnd
+      pure (st, "ok " ++ outJ (oe500Src st.chips rc w6 w7 w8))
   | "pelraw" => do
       let c ← pSelCfg; let b ← pBytes; pEnd
       pure (st, "ok " ++ outOutcome (parsePEL st.env c b))
